@@ -369,11 +369,16 @@ Section NativePolicy.
   Inductive route := RSource | RAvbc | RAasm.
   Definition manifest := list (string * policy).
   (* source: Manifest::for_source_file(entry); assembly: the same lookup next to the .aasm file;
-     bytecode: the embedded manifest, else the same lookup next to the .avbc file *)
+     bytecode: the same lookup next to the .avbc file, else the embedded manifest *)
   Definition manifest_for (r : route) (project embedded : option manifest) : option manifest :=
     match r with
     | RSource => project
-    | RAvbc => match embedded with Some m => Some m | None => project end
+    | RAvbc =>
+        (* since the repair of KF-C11-8 (Extracted.avbc_route_project_manifest_wins) the project manifest next to the
+           file wins; before it, an embedded manifest - which anything can append to the file - replaced it *)
+        if avbc_route_project_manifest_wins
+        then match project with Some m => Some m | None => embedded end
+        else match embedded with Some m => Some m | None => project end
     | RAasm => project
     end.
   (* BEFORE the repair of KF-C11-2: assembly passed no manifest, bytecode only an embedded one *)
